@@ -65,8 +65,15 @@ def gen_config(rng):
     inputs = [rng.choice([1, 2]) for _ in range(8 + rng.choice([0, 1, 3]))]
     n_in = len(inputs)
     par = max(par, 1)
-  return {'api': api, 'par': par, 'inputs': inputs, 'fn': fn, 'buf': buf,
-          'pool': pool, 'pool_size': n_in + max(par, 1) + rng.choice([0, 1, 4])}
+  cfg = {'api': api, 'par': par, 'inputs': inputs, 'fn': fn, 'buf': buf,
+         'pool': pool, 'pool_size': n_in + max(par, 1) + rng.choice([0, 1, 4])}
+  # (own generator: the configurations drawn from rng stay what they were)
+  krng = random.Random(sum(inputs) * 131 + n_in * 17 + par * 7 + buf)
+  if api in ('piter', 'piter_multiplex') and krng.random() < 0.35:
+    # fourth seed round (C13d): some inputs are Sequence objects (a list / tuple shard,
+    # possibly empty) instead of generators; they have no return value
+    cfg['src_kinds'] = [krng.choice(['gen', 'list', 'tuple']) for _ in range(n_in)]
+  return cfg
 
 
 def variants(cfg):
@@ -133,6 +140,11 @@ def run_one(ctx, case):
     ctx.count('early_stop_runs')
   else:
     ctx.count('full_runs')
+  seq_in = info.get('sequence_inputs') or []
+  if seq_in:
+    ctx.count('runs_with_sequence_inputs')
+    if any(n == 0 for _, _, n in seq_in) and len(case['inputs']) >= 2:
+      ctx.count('runs_with_empty_sequence_input_among_several')
   cfg_key = {k: v for k, v in case.items() if k != 'sched_seed'}
   nontrivial = ((case['par'] >= 2 or len(case['inputs']) >= 2)
                 and sched.line_preemptions >= 1)
